@@ -391,6 +391,11 @@ func (en *DefaultEngine) runFirst(ctx context.Context) (bool, error) {
 func (en *DefaultEngine) Finish(ctx context.Context) error {
 	var perr error
 	if !en.initd {
+		if en.pe != nil && en.execd && en.pe.GetState() != nil {
+			// the first function ended the request before the engine was initialized: the session is
+			// unchanged, but a persister that is flushed after saving must not go on holding it
+			return en.pe.Save(en.cfg.SessionId)
+		}
 		return nil
 	}
 	if en.pe != nil {
